@@ -4,7 +4,8 @@
 
 use crate::term::{Arena, Atom, Lit, Node, Witness, T};
 use std::io::{BufRead, BufReader, Write};
-use std::process::{Child, ChildStdin, ChildStdout, Command, Stdio};
+use std::process::{Child, ChildStdin, Command, Stdio};
+use std::sync::mpsc::{channel, Receiver};
 use std::time::Instant;
 
 #[derive(Clone, Copy, PartialEq, Eq, Debug)]
@@ -52,7 +53,9 @@ pub struct Solver {
     pub kind: Kind,
     child: Child,
     stdin: ChildStdin,
-    stdout: BufReader<ChildStdout>,
+    /// lines of the solver's stdout, fed by a reader thread (so that a solver that ignores its
+    /// own time limit can be killed by a watchdog instead of blocking the worker forever)
+    stdout: Receiver<String>,
     defined_terms: Vec<bool>,
     defined_atoms: Vec<bool>,
     declared_inputs: Vec<u32>,
@@ -64,7 +67,7 @@ pub struct Solver {
     script: String,
 }
 
-fn spawn(kind: Kind, timeout_ms: u64) -> (Child, ChildStdin, BufReader<ChildStdout>) {
+fn spawn(kind: Kind, timeout_ms: u64) -> (Child, ChildStdin, Receiver<String>) {
     let mut cmd = match kind {
         Kind::Z3 | Kind::Portfolio => {
             let mut c = Command::new("/usr/bin/z3");
@@ -102,8 +105,20 @@ fn spawn(kind: Kind, timeout_ms: u64) -> (Child, ChildStdin, BufReader<ChildStdo
         .spawn()
         .expect("cannot start solver");
     let stdin = child.stdin.take().unwrap();
-    let stdout = BufReader::new(child.stdout.take().unwrap());
-    (child, stdin, stdout)
+    let mut out = BufReader::new(child.stdout.take().unwrap());
+    let (tx, rx) = channel::<String>();
+    std::thread::spawn(move || loop {
+        let mut line = String::new();
+        match out.read_line(&mut line) {
+            Ok(0) | Err(_) => break,
+            Ok(_) => {
+                if tx.send(line).is_err() {
+                    break;
+                }
+            }
+        }
+    });
+    (child, stdin, rx)
 }
 
 impl Solver {
@@ -182,11 +197,11 @@ impl Solver {
     }
 
     fn read_line(&mut self) -> String {
-        let mut line = String::new();
-        match self.stdout.read_line(&mut line) {
-            Ok(0) => "(error \"solver closed pipe\")".to_string(),
-            Ok(_) => line.trim().to_string(),
-            Err(e) => format!("(error \"{}\")", e),
+        let cap = std::time::Duration::from_millis(self.timeout_ms.min(if self.kind == Kind::Portfolio { 3000 } else { u64::MAX }) + 3000);
+        match self.stdout.recv_timeout(cap) {
+            Ok(line) => line.trim().to_string(),
+            Err(std::sync::mpsc::RecvTimeoutError::Timeout) => "(error \"watchdog: the solver did not answer within its own time limit\")".to_string(),
+            Err(_) => "(error \"solver closed pipe\")".to_string(),
         }
     }
 
